@@ -258,7 +258,7 @@ def _parse_eq_to_batch_matmul(eq, shape_a, shape_b):
     # take diagonal, remove any trivial axes and transpose left
     desired_a = "".join((*bat_inds, *a_keep, *con_inds))
     if a_term != desired_a:
-        if set(a_term) == set(desired_a):
+        if len(a_term) == len(desired_a) and set(a_term) == set(desired_a):
             # only need to transpose, don't invoke einsum
             eq_a = tuple(a_term.index(ix) for ix in desired_a)
         else:
@@ -269,7 +269,7 @@ def _parse_eq_to_batch_matmul(eq, shape_a, shape_b):
     # take diagonal, remove any trivial axes and transpose right
     desired_b = "".join((*bat_inds, *con_inds, *b_keep))
     if b_term != desired_b:
-        if set(b_term) == set(desired_b):
+        if len(b_term) == len(desired_b) and set(b_term) == set(desired_b):
             # only need to transpose, don't invoke einsum
             eq_b = tuple(b_term.index(ix) for ix in desired_b)
         else:
